@@ -8,6 +8,7 @@
 -/
 import Krp.Lemmas.Reward
 import Krp.Init
+import Krp.Lemmas.Reach
 namespace Krp
 open RewardSt
 
@@ -150,5 +151,34 @@ def c14Example : RewardSt :=
 
 example : c14Example.Inv ∧ D ≤ c14Example.owed 5 := by
   refine ⟨⟨?_, ?_, ?_, ?_, ?_⟩, ?_⟩ <;> simp [c14Example, owed, upd, sumOn, D]
+
+/-- **Every reachable state.** From any state in which the reward contract's invariant holds (the
+    instantiated contract: `C14_inv_init`), after any history of the composed system — token
+    transfers, mints and burns mirrored by the bSei token, index updates through the dispatcher,
+    claims, failed transactions, anything else — the sum of what all holders are owed never exceeds
+    the recorded reward balance, the recorded total equals the sum of mirrored balances, and no
+    holder's checkpoint is ahead of the global index. -/
+theorem C14_reachable (s : Sys) (l : List Step) (h : s.reward.Inv) : (s.steps l).reward.Inv := by
+  exact steps_inv (fun x => x.reward.Inv)
+    (by
+      intro x m x' ms hp hx
+      cases handle_touch x x' m ms hx with
+      | none h _ _ => rw [h.reward]; exact hp
+      | hub s1 sender funds hm _ _ _ hx' b t r d g => rw [r]; exact hp
+      | bsei s1 sender funds tm _ _ hx' h t r d g => rw [r]; exact hp
+      | stsei blk sender funds tm _ hx' h b r d g => rw [r]; exact hp
+      | reward s1 sender funds rm _ _ hx' h b t d g => exact C14_inv_step _ _ _ _ _ _ _ _ _ hp hx'
+      | disp env sender funds dm _ hx' h b t r g => rw [r]; exact hp
+      | reg s1 sender funds rm _ h1 hx' h b t r d => rw [r]; exact hp)
+    (by
+      intro x e hp
+      cases e with
+      | seedLegacy u b a => exact hp
+      | slash v n d => simp only [Sys.env]; split <;> exact hp
+      | slashUnbonding v n d => simp only [Sys.env]; split <;> exact hp
+      | _ => exact hp)
+    l s h
+
+example : genesisSys.reward.Inv := C14_inv_init 1 hubA 1 swapA [0, 1]
 
 end Krp
